@@ -7,7 +7,7 @@ ID = 'C13'
 LEVEL = 'exploration'
 RULE = (
     'Generated call histories (bursts of 1-8 dispatches with payload-driven handler duration, 0-4 fire-and-forget or '
-    'awaited children per event to depth 2, time advances, awaits) on a bus with max_history_size N in 1..6 (and N=50 '
+    'awaited children per event to depth 2, time advances, awaits, re-dispatch of completed and already evicted event objects) on a bus with max_history_size N in 1..6 (and N=50 '
     'with bursts around the 50/100 limits in the thorough tier); invariants checked at every dispatch, handler '
     'enter/exit and after every operation: len(history) <= N; eviction order consistent with completed < started < '
     'pending, oldest first (judged conservatively from consecutive snapshots); at the end every accepted event was '
@@ -22,6 +22,8 @@ op_small = st.one_of(
     st.tuples(st.just('burst'), st.integers(1, 8), dur, st.integers(0, 4), st.booleans(), st.just(False), st.none()).map(list),
     st.tuples(st.just('burst'), st.integers(1, 8), dur, st.integers(0, 4), st.booleans(), st.just(False), st.none()).map(list),
     st.tuples(st.just('await'), st.integers(0, 30)).map(list),
+    # the same, already completed (often already evicted) event objects are dispatched to the bus again
+    st.tuples(st.just('again'), st.integers(1, 3), st.just(False)).map(list),
 )
 small = st.fixed_dictionaries({'N': st.integers(1, 6), 'maxdepth': st.just(2), 'ops': st.lists(op_small, min_size=1, max_size=7)})
 op_big = st.one_of(
@@ -58,6 +60,8 @@ def run_case(sc):
         cl.append('eviction-with-inflight-in-history')
     if info['rejected']:
         cl.append('rejections')
+    if info.get('redispatched-completed'):
+        cl.append('completed-object-dispatched-again')
     if out.get('stalled'):
         cl.append('stalled')
         viol.append(('C13.c', f'run never became quiescent: {out["stalled"]}'))
